@@ -20,11 +20,42 @@ pub struct Rw {
     pub float_unit: bool,
     /// nested unit: (outer type name, nested struct name, inner type name substituted for T)
     pub nested: Option<(String, String, String)>,
+    /// Display bodies (rule R6): write_fmt(format_args!(..)) -> sequence of f.lit(id) / f.disp(&x); `?` dropped; string literals -> ids
+    pub display_unit: bool,
+}
+
+/// FNV-1a 64 of the UTF-8 text: identifies a literal piece of output without string reasoning in the verifier
+pub fn lit_id(s: &str) -> u64 {
+    let mut h: u64 = 0xcbf29ce484222325;
+    for b in s.as_bytes() {
+        h ^= *b as u64;
+        h = h.wrapping_mul(0x100000001b3);
+    }
+    h
+}
+
+struct FmtArgs {
+    fmt: syn::LitStr,
+    args: Vec<Expr>,
+}
+impl syn::parse::Parse for FmtArgs {
+    fn parse(input: syn::parse::ParseStream) -> syn::Result<Self> {
+        let fmt: syn::LitStr = input.parse()?;
+        let mut args = vec![];
+        while !input.is_empty() {
+            let _: syn::Token![,] = input.parse()?;
+            if input.is_empty() {
+                break;
+            }
+            args.push(input.parse()?);
+        }
+        Ok(FmtArgs { fmt, args })
+    }
 }
 
 impl Rw {
     pub fn new(ints: HashSet<String>) -> Self {
-        Rw { dims: HashSet::new(), ints, counts: BTreeMap::new(), err: None, rename_self: false, field_methods: Default::default(), field_recv: HashSet::new(), float_unit: false, nested: None }
+        Rw { dims: HashSet::new(), ints, counts: BTreeMap::new(), err: None, rename_self: false, field_methods: Default::default(), field_recv: HashSet::new(), float_unit: false, nested: None, display_unit: false }
     }
     fn bump(&mut self, k: &'static str) {
         *self.counts.entry(k).or_insert(0) += 1;
@@ -96,6 +127,19 @@ fn strip_known_generics(path: &mut syn::Path, rw: &mut Rw) {
 
 impl VisitMut for Rw {
     fn visit_type_mut(&mut self, t: &mut Type) {
+        if self.display_unit {
+            if let Type::Path(p) = t {
+                let last = p.path.segments.last().map(|s| s.ident.to_string()).unwrap_or_default();
+                if last == "Formatter" {
+                    *t = parse_quote!(Fmt);
+                    return;
+                }
+                if last == "Result" && p.path.segments.len() == 2 {
+                    *t = parse_quote!(FmtResult);
+                    return;
+                }
+            }
+        }
         if let Type::Path(p) = t {
             if p.qself.is_none() && p.path.segments.len() == 2 && p.path.segments[0].ident == "Self" && p.path.segments[1].ident == "RealField" {
                 *t = parse_quote!(Self);
@@ -144,6 +188,93 @@ impl VisitMut for Rw {
                             }
                         }
                     }
+                }
+            }
+        }
+        if self.display_unit {
+            // R6
+            if let Expr::Try(t) = e {
+                let inner = (*t.expr).clone();
+                *e = inner;
+                self.bump("R6_drop_try");
+            }
+            if let Expr::MethodCall(m) = e {
+                if m.method == "write_fmt" && m.args.len() == 1 {
+                    if let Expr::Macro(mac) = &m.args[0] {
+                        if mac.mac.path.is_ident("format_args") {
+                            match syn::parse2::<FmtArgs>(mac.mac.tokens.clone()) {
+                                Ok(fa) => {
+                                    let recv = &m.receiver;
+                                    let text = fa.fmt.value();
+                                    let mut stmts: Vec<syn::Stmt> = vec![];
+                                    let mut rest = text.as_str();
+                                    let mut ok = true;
+                                    let mut implicit = 0usize;
+                                    loop {
+                                        match rest.find('{') {
+                                            None => {
+                                                if !rest.is_empty() {
+                                                    let id = lit_id(rest);
+                                                    stmts.push(parse_quote!(#recv.lit(#id);));
+                                                }
+                                                break;
+                                            }
+                                            Some(i) => {
+                                                if i > 0 {
+                                                    let id = lit_id(&rest[..i]);
+                                                    stmts.push(parse_quote!(#recv.lit(#id);));
+                                                }
+                                                let close = match rest[i..].find('}') {
+                                                    Some(c) => i + c,
+                                                    None => {
+                                                        ok = false;
+                                                        break;
+                                                    }
+                                                };
+                                                let inside = &rest[i + 1..close];
+                                                let idx = if inside.is_empty() {
+                                                    implicit += 1;
+                                                    Some(implicit - 1)
+                                                } else {
+                                                    inside.parse::<usize>().ok()
+                                                };
+                                                match idx.and_then(|k| fa.args.get(k)) {
+                                                    Some(a) => stmts.push(parse_quote!(#recv.disp(&(#a));)),
+                                                    None => {
+                                                        // named / captured argument such as {symbol}
+                                                        if let Ok(id) = syn::parse_str::<syn::Ident>(inside) {
+                                                            stmts.push(parse_quote!(#recv.lit(#id);));
+                                                        } else {
+                                                            ok = false;
+                                                        }
+                                                    }
+                                                }
+                                                rest = &rest[close + 1..];
+                                            }
+                                        }
+                                    }
+                                    if ok {
+                                        *e = parse_quote!({ #(#stmts)* fmt_ok() });
+                                        self.bump("R6_write_fmt_to_pieces");
+                                    } else if self.err.is_none() {
+                                        self.err = Some("format string outside rule R6".into());
+                                    }
+                                }
+                                Err(_) => {
+                                    if self.err.is_none() {
+                                        self.err = Some("format_args outside rule R6".into());
+                                    }
+                                }
+                            }
+                        }
+                    }
+                }
+            }
+            if let Expr::Lit(l) = e {
+                if let syn::Lit::Str(sl) = &l.lit {
+                    let id = lit_id(&sl.value());
+                    *e = parse_quote!(#id);
+                    self.bump("R6_string_literal_to_id");
                 }
             }
         }
